@@ -1047,3 +1047,166 @@ Proof.
       unfold psum, psumf. apply csum_map_ext. intros [u v] _. cbn [fst snd]. unfold vmul, vslice.
       rewrite vget_vmap2 by (rewrite length_vtab; exact Ht). rewrite !vget_vtab by exact Ht. reflexivity.
 Qed.
+
+(* ------------------------------------------------------------------ __getitem__ *)
+Lemma length_vtake u ps : length (vtake u ps) = length ps.
+Proof. apply map_length. Qed.
+
+Lemma nth_map_lt {A B} (F : A -> B) l t dA dB : (t < length l)%nat -> nth t (map F l) dB = F (nth t l dA).
+Proof. intros H. rewrite nth_indep with (d' := F dA) by (rewrite map_length; exact H). apply map_nth. Qed.
+
+Lemma vget_vtake u ps t : (t < length ps)%nat -> vget (vtake u ps) t = vget u (Z.to_nat (nth t ps 0)).
+Proof. intros H. unfold vtake, vget at 1. apply (nth_map_lt (fun k => vget u (Z.to_nat k)) ps t 0 c0 H). Qed.
+
+Lemma combine_map {A B A' B'} (f : A -> A') (g : B -> B') la lb :
+  combine (map f la) (map g lb) = map (fun p => (f (fst p), g (snd p))) (combine la lb).
+Proof. revert lb. induction la as [|a la IH]; intros [|b lb]; cbn; try reflexivity. rewrite IH. reflexivity. Qed.
+
+Lemma map_as_vtab {A} (F : A -> C) l d : map F l = vtab (length l) (fun t => F (nth t l d)).
+Proof.
+  apply list_ext_nth; [rewrite map_length, length_vtab; reflexivity|].
+  intros t Ht. rewrite map_length in Ht. rewrite vget_vtab by exact Ht. unfold vget. apply nth_map_lt. exact Ht.
+Qed.
+
+Lemma fold_or_flags {A} (F G : A -> bool) l a :
+  fold_left (fun acc p => acc || F p || G p) l a = a || existsb (fun p => F p || G p) l.
+Proof.
+  revert a. induction l as [|x l IH]; intros a; cbn; [rewrite orb_false_r; reflexivity|].
+  rewrite IH. rewrite <- !orb_assoc. reflexivity.
+Qed.
+
+Lemma existsb_map_fn {A B} (F : B -> bool) (g : A -> B) l : existsb F (map g l) = existsb (fun x => F (g x)) l.
+Proof. induction l as [|x l IH]; cbn; [reflexivity | rewrite IH; reflexivity]. Qed.
+
+Definition subu (pu : list Z) (u : vec) : vec := mkvec (vtake (vd u) pu) (vf u).
+
+Lemma get_flag c pu pv : wf c ->
+  fle (fold_left (fun acc p => acc || vf (fst p) || vf (snd p)) (combine (map (subu pu) (us c)) (map (subu pv) (vs c))) (cplx c))
+      (cplx c).
+Proof.
+  intros W H.
+  rewrite fold_or_flags in H. apply orb_true_iff in H as [H|H]; [exact H|].
+  rewrite combine_map, existsb_map_fn in H. cbn [fst snd subu vf] in H.
+  apply existsb_exists in H as [[u v] [Hin Hf]]. cbn [fst snd] in Hf.
+  apply orb_true_iff in Hf as [Hf|Hf].
+  - apply (wf_f _ W u); [left; eapply in_combine_l; exact Hin | exact Hf].
+  - apply (wf_f _ W v); [right; eapply in_combine_r; exact Hin | exact Hf].
+Qed.
+
+Lemma slice_sum c pu pv si sj n : wf c ->
+  (forall u v, length (slice_prod si sj (vtake u pu) (vtake v pv)) = n) ->
+  fold_left (fun acc p => vadd acc (slice_prod si sj (vd (fst p)) (vd (snd p))))
+            (combine (map (subu pu) (us c)) (map (subu pv) (vs c))) (vzeros n)
+  = vtab n (fun t => psumf (fun u v => vget (slice_prod si sj (vtake (vd u) pu) (vtake (vd v) pv)) t) (us c) (vs c)).
+Proof.
+  intros W Hl. rewrite (fold_left_map_fn vadd (fun p => slice_prod si sj (vd (fst p)) (vd (snd p)))).
+  rewrite combine_map, map_map. cbn [fst snd subu vd]. rewrite vzeros_tab, fold_vadd_tab.
+  2:{ apply Forall_map. apply Forall_forall. intros p _. apply Hl. }
+  apply vtab_ext. intros t _. rewrite map_map. rewrite cadd_0_l. reflexivity.
+Qed.
+
+Lemma map_map_mtab {A B} (F : A -> B -> C) la lb da db :
+  map (fun p => map (fun q => F p q) lb) la = mtab (length la) (length lb) (fun i j => F (nth i la da) (nth j lb db)).
+Proof.
+  apply mat_ext_nth; [rewrite map_length, length_mtab; reflexivity|].
+  intros i Hi. rewrite map_length in Hi. rewrite nth_mtab by exact Hi.
+  rewrite (nth_map_lt (fun p => map (fun q => F p q) lb) la i da []) by exact Hi.
+  apply (map_as_vtab (fun q => F (nth i la da) q) lb db).
+Qed.
+
+Lemma get_row c d p pv sj : wf c -> R c d ->
+  fold_left (fun acc q => vadd acc (slice_prod true sj (vd (fst q)) (vd (snd q))))
+            (combine (map (subu [p]) (us c)) (map (subu pv) (vs c))) (vzeros (length pv))
+  = map (fun q => mget (dmat d) (Z.to_nat p) (Z.to_nat q)) pv.
+Proof.
+  intros W Rc. rewrite (slice_sum c [p] pv true sj (length pv) W).
+  2:{ intros u v. cbn [slice_prod]. rewrite map_length. apply length_vtake. }
+  rewrite (map_as_vtab _ pv 0). apply vtab_ext. intros t Ht. rewrite (R_mget c d _ _ W Rc).
+  unfold psum. apply psumf_ext. intros u v _ _. cbn [slice_prod]. rewrite vget_map by (apply cmul_0_r).
+  rewrite !vget_vtake by (cbn; lia). reflexivity.
+Qed.
+
+Lemma get_col c d pu q : wf c -> R c d ->
+  fold_left (fun acc p => vadd acc (slice_prod false true (vd (fst p)) (vd (snd p))))
+            (combine (map (subu pu) (us c)) (map (subu [q]) (vs c))) (vzeros (length pu))
+  = map (fun p => mget (dmat d) (Z.to_nat p) (Z.to_nat q)) pu.
+Proof.
+  intros W Rc. rewrite (slice_sum c pu [q] false true (length pu) W).
+  2:{ intros u v. cbn [slice_prod]. rewrite map_length. apply length_vtake. }
+  rewrite (map_as_vtab _ pu 0). apply vtab_ext. intros t Ht. rewrite (R_mget c d _ _ W Rc).
+  unfold psum. apply psumf_ext. intros u v _ _. cbn [slice_prod]. rewrite vget_map by (apply cmul_0_l).
+  rewrite !vget_vtake by (cbn; lia). reflexivity.
+Qed.
+
+Lemma get_pairs c d pu pv : wf c -> R c d -> length pu = length pv ->
+  fold_left (fun acc p => vadd acc (slice_prod false false (vd (fst p)) (vd (snd p))))
+            (combine (map (subu pu) (us c)) (map (subu pv) (vs c))) (vzeros (length pu))
+  = map (fun pq => mget (dmat d) (Z.to_nat (fst pq)) (Z.to_nat (snd pq))) (combine pu pv).
+Proof.
+  intros W Rc L. rewrite (slice_sum c pu pv false false (length pu) W).
+  2:{ intros u v. cbn [slice_prod]. unfold vmul. rewrite length_vmap2, !length_vtake. lia. }
+  rewrite (map_as_vtab _ (combine pu pv) (0, 0)). rewrite combine_length, <- L, Nat.min_id.
+  apply vtab_ext. intros t Ht. rewrite combine_nth by exact L. cbn [fst snd]. rewrite (R_mget c d _ _ W Rc).
+  unfold psum. apply psumf_ext. intros u v _ _. cbn [slice_prod]. unfold vmul.
+  rewrite vget_vmap2 by (rewrite length_vtake; lia). rewrite !vget_vtake by lia. reflexivity.
+Qed.
+
+Lemma get_outer c d pu pv : wf c -> R c d ->
+  Rres (lift (mk (map (subu pu) (us c)) (map (subu pv) (vs c)) (zlen pu) (zlen pv)))
+       (Ok (DDyad (mkdm (zlen pu) (zlen pv)
+                        (map (fun p => map (fun q => mget (dmat d) (Z.to_nat p) (Z.to_nat q)) pv) pu) (dflag d)))).
+Proof.
+  intros W Rc. pose proof Rc as [Eu [Ev [_ Fl]]].
+  destruct (mk_R (map (subu pu) (us c)) (map (subu pv) (vs c)) (zlen pu) (zlen pv)
+                 (mkdm (zlen pu) (zlen pv) (map (fun p => map (fun q => mget (dmat d) (Z.to_nat p) (Z.to_nat q)) pv) pu) (dflag d))
+                 (fun i j => mget (dmat d) (Z.to_nat (nth i pu 0)) (Z.to_nat (nth j pv 0))))
+    as [c' [E [W' R']]]; cbn [dr dc dmat dflag]; auto.
+  - rewrite !map_length. apply (wf_len _ W).
+  - unfold subu. apply vlens_mkvec_all. intros v. unfold zlen. rewrite length_vtake. reflexivity.
+  - unfold subu. apply vlens_mkvec_all. intros v. unfold zlen. rewrite length_vtake. reflexivity.
+  - unfold nrow, ncol, zlen. cbn [dr dc]. rewrite !Nat2Z.id. apply (map_map_mtab (fun p q => mget (dmat d) (Z.to_nat p) (Z.to_nat q))).
+  - unfold nrow, ncol, zlen. cbn [dr dc]. rewrite !Nat2Z.id. intros i j Hi Hj. rewrite (R_mget c d _ _ W Rc).
+    unfold psum. rewrite psumf_map. apply psumf_ext. intros u v _ _. unfold ent, subu. cbn [vd].
+    rewrite !vget_vtake by assumption. reflexivity.
+  - rewrite !existsb_vf_map by reflexivity. intros H. apply Fl. apply (wf_flag_bound c W H).
+  - rewrite E. cbn. auto.
+Qed.
+
+Lemma get_refines c d i j r : wf c -> R c d -> dget d i j = Some r -> Rres (getitem c i j) r.
+Proof.
+  intros W Rc. pose proof Rc as [Eu [Ev [Ed Fl]]]. unfold dget, getitem. rewrite Eu, Ev.
+  destruct (dr d <? 0) eqn:N1; [cbn; discriminate|].
+  destruct (dc d <? 0) eqn:N2; [cbn; discriminate|]. cbn [orb andb].
+  destruct (idx_pos (dr d) i) as [pu|e] eqn:Ei; [|discriminate].
+  destruct (idx_pos (dc d) j) as [pv|e] eqn:Ej; [|discriminate].
+  change (map (fun u => mkvec (vtake (vd u) pu) (vf u)) (us c)) with (map (subu pu) (us c)).
+  change (map (fun v => mkvec (vtake (vd v) pv) (vf v)) (vs c)) with (map (subu pv) (vs c)).
+  pose proof (get_flag c pu pv W) as FL.
+  assert (FL' : fle (fold_left (fun acc p => acc || vf (fst p) || vf (snd p))
+                               (combine (map (subu pu) (us c)) (map (subu pv) (vs c))) (cplx c)) (dflag d))
+    by (intros H; apply Fl; apply FL; exact H).
+  destruct i as [a|a1 a2 a3|la]; destruct j as [b|b1 b2 b3|lb]; cbn [idx_scalar idx_arr orb andb negb];
+    intros H.
+  - (* int, int *) injection H as <-.
+    cbn [idx_pos] in Ei, Ej. destruct (norm_index (dr d) a) as [p|] eqn:Ea; [|discriminate]. injection Ei as <-.
+    destruct (norm_index (dc d) b) as [q|] eqn:Eb; [|discriminate]. injection Ej as <-.
+    rewrite (get_row c d p [q] true W Rc). cbn. auto.
+  - (* int, slice *) injection H as <-.
+    cbn [idx_pos] in Ei. destruct (norm_index (dr d) a) as [p|] eqn:Ea; [|discriminate]. injection Ei as <-.
+    rewrite (get_row c d p pv false W Rc). cbn. auto.
+  - (* int, array *) injection H as <-.
+    cbn [idx_pos] in Ei. destruct (norm_index (dr d) a) as [p|] eqn:Ea; [|discriminate]. injection Ei as <-.
+    rewrite (get_row c d p pv false W Rc). cbn. auto.
+  - (* slice, int *) injection H as <-.
+    cbn [idx_pos] in Ej. destruct (norm_index (dc d) b) as [q|] eqn:Eb; [|discriminate]. injection Ej as <-.
+    rewrite (get_col c d pu q W Rc). cbn. auto.
+  - (* slice, slice *) injection H as <-. apply get_outer; assumption.
+  - (* slice, array *) injection H as <-. apply get_outer; assumption.
+  - (* array, int *) injection H as <-.
+    cbn [idx_pos] in Ej. destruct (norm_index (dc d) b) as [q|] eqn:Eb; [|discriminate]. injection Ej as <-.
+    rewrite (get_col c d pu q W Rc). cbn. auto.
+  - (* array, slice *) injection H as <-. apply get_outer; assumption.
+  - (* array, array *)
+    destruct (Nat.eqb (length pu) (length pv)) eqn:EL; cbn [negb]; injection H as <-; [|reflexivity].
+    apply Nat.eqb_eq in EL. rewrite (get_pairs c d pu pv W Rc EL). cbn. auto.
+Qed.
